@@ -193,6 +193,29 @@ pub fn register(l: &mut Vec<Obl>) {
                 });
         }};
     }
+    macro_rules! inverse_vs_li_custom_d {
+        ($key:literal, $arc:literal, $W:ty, $la:expr, $surround:expr, $sur:expr, $P:ident, $lum:ident, $chr:ident, $lrange:expr, $crange:expr, $sinb:expr, $hlo:expr, $hhi:expr, $tier:expr, $d:expr) => {{
+            let w = <$W as palette::white_point::WhitePoint<f64>>::get_xyz();
+            let cond = crate::reference::cam16::conditions_d([w.x * 100.0, w.y * 100.0, w.z * 100.0], $la, 20.0, $sur, Some($d));
+            obl!(l; concat!("c16_inverse_vs_published_custom_discounting_", $key, $arc), "C16", $tier,
+                concat!("the inverse model ", stringify!($P), "::into_xyz equals the published CAM16 inverse equations (Li et al. 2017, Appendix A, transcribed independently: the paper's case split of step 3, its own M16 inverse computed from M16, its unadaptation formula): X, Y, Z within 1e-5 relative + 1e-6, for every luminance correlate, chromatic correlate in the stated ranges and every hue of the stated arc (the arc on which the paper's case |sin h| >= |cos h| resp. its complement applies); user-set degree of adaptation (Discounting::Custom); ", $key, $arc),
+                [concat!(stringify!($P), "::into_xyz"), "cam16::math::cam16_to_xyz", "cam16::math::non_black_cam16_to_xyz", "cam16::math::Unadapt::run", "cam16::math::m16_inv", "cam16::math::prepare_parameters"],
+                [var("lum", $lrange.0, $lrange.1), var("chr", $crange.0, $crange.1), var("h", $hlo, $hhi)];
+                |v| {
+                    let mut r = Res::<B>::new();
+                    let mut p = Parameters::<palette::cam16::StaticWp<$W>, <T as palette::num::FromScalar>::Scalar>::default_static_wp($la);
+                    p.surround = $surround;
+                    p.discounting = palette::cam16::Discounting::Custom($d);
+                    let got: Xyz<$W, T> = $P::<T>::new(v[0], v[1], v[2]).into_xyz(p.bake());
+                    let want = crate::reference::cam16::inverse(crate::reference::cam16::Lum::$lum(v[0]), crate::reference::cam16::Chr::$chr(v[1]), v[2], &cond, $sinb);
+                    let rel = |a: T, b: T| (a * T::k(100.0) - b).abs_().le(b.abs_() * T::k(1e-5) + T::k(1e-4));
+                    r.goal("x", rel(got.x, want[0]));
+                    r.goal("y", rel(got.y, want[1]));
+                    r.goal("z", rel(got.z, want[2]));
+                    r
+                });
+        }};
+    }
     // arcs: |sin h| >= |cos h| on [45, 135] and [-135, -45]; |cos h| >= |sin h| on [-45, 45] and [135, 180] u [-180, -135]
     macro_rules! inverse_all_arcs {
         ($key:literal, $W:ty, $la:expr, $surround:expr, $sur:expr, $P:ident, $lum:ident, $chr:ident, $lrange:expr, $crange:expr, $tier:expr) => {
@@ -213,5 +236,9 @@ pub fn register(l: &mut Vec<Obl>) {
     inverse_all_arcs!("jmh_d50_la4_average", wp::D50, 4.0, palette::cam16::Surround::Average, avg, Cam16Jmh, J, M, (20.0, 100.0), (1.0, 40.0), Tier::Quick);
     inverse_all_arcs!("jsh_d65_la318_average", wp::D65, 318.0, palette::cam16::Surround::Average, avg, Cam16Jsh, J, S, (20.0, 100.0), (5.0, 60.0), Tier::Quick);
     inverse_all_arcs!("jch_d50_la4_dark", wp::D50, 4.0, palette::cam16::Surround::Dark, dark, Cam16Jch, J, C, (20.0, 100.0), (1.0, 50.0), Tier::Quick);
+    inverse_vs_li_custom_d!("jch_d65_la40_dim_d1", "_sin_arc_45_135", wp::D65, 40.0, palette::cam16::Surround::Dim, dim, Cam16Jch, J, C, (20.0, 100.0), (1.0, 60.0), true, 45.0, 135.0, Tier::Quick, 1.0);
+    inverse_vs_li_custom_d!("jch_d65_la40_dim_d1", "_cos_arc_m45_45", wp::D65, 40.0, palette::cam16::Surround::Dim, dim, Cam16Jch, J, C, (20.0, 100.0), (1.0, 60.0), false, -45.0, 45.0, Tier::Quick, 1.0);
+    inverse_vs_li_custom_d!("qmh_d50_la64_dark_d0_6", "_sin_arc_m135_m45", wp::D50, 64.0, palette::cam16::Surround::Dark, dark, Cam16Qmh, Q, M, (60.0, 190.0), (1.0, 50.0), true, -135.0, -45.0, Tier::Quick, 0.6);
+    inverse_vs_li_custom_d!("qmh_d50_la64_dark_d0_6", "_cos_arc_135_225", wp::D50, 64.0, palette::cam16::Surround::Dark, dark, Cam16Qmh, Q, M, (60.0, 190.0), (1.0, 50.0), false, 135.0, 225.0, Tier::Quick, 0.6);
     inverse_all_arcs!("qsh_d65_la40_average", wp::D65, 40.0, palette::cam16::Surround::Average, avg, Cam16Qsh, Q, S, (60.0, 190.0), (5.0, 60.0), Tier::Quick);
 }
